@@ -101,9 +101,43 @@ def cases(tier, seed):
         add(e, None, ('now',))
     return out
 
+def now_concurrent(ck, part, res):
+    """'within one evaluation every $now()/$millis() is one instant' must also hold when other evaluations
+    (of the same and of other expressions) start in the meantime: run the time identities on 8 goroutines."""
+    import json, os, subprocess
+    from ..engine import WORK
+    if getattr(ck, '_now_done', False):
+        return
+    ck._now_done = True
+    race = os.path.join(WORK, 'bin', 'jvrace')
+    if not os.path.exists(race):
+        return
+    progs = [{'expr': e, 'inputs': [{'n': i} for i in range(3)]} for e in [
+        '($t0 := $millis(); $w := $sum($map([1..400], function($i){$i * 2})); $t1 := $millis(); $t0 = $t1)',
+        '($n0 := $now(); $w := $join($map([1..300], $string)); $n0 = $now())',
+        '[$millis() = $millis(), $now() = $now(), $toMillis($now()) = $millis()]',
+        '($a := $millis(); $b := $map([1..200], function($i){$millis()}); $count($distinct($append($b, $a))) = 1)']]
+    for mode in ('shared', 'own'):
+        spec = {'programs': progs, 'goroutines': 8, 'iterations': 40 if ck.tier == 'quick' else 400, 'mode': mode}
+        p = subprocess.run([race], input=json.dumps(spec), capture_output=True, text=True, env=dict(os.environ, GORACE='halt_on_error=0'), timeout=900)
+        nr = p.stderr.count('WARNING: DATA RACE')
+        try:
+            out = json.loads(p.stdout.strip().splitlines()[-1])
+        except Exception:
+            ck.notes.append('concurrent $now/$millis run could not be read')
+            continue
+        ck.stats['now_concurrent_evaluations'] += out['evaluations']
+        for mm in (out['mismatches'] or [])[:2]:
+            ck.failing_case({'kind': 'race', 'expr': mm['expr'], 'input': json.loads(mm['input']), 'mode': mode, 'goroutines': 8}, mm,
+                            'direct:now-concurrent: with other evaluations running, %s instead of %s' % (mm['got'][:80], mm['want'][:80]))
+        if nr:
+            frames = [l.strip() for l in p.stderr.splitlines() if 'jsonata-go' in l][:4]
+            ck.failing_case({'kind': 'race', 'expr': '$now/$millis identities on 8 goroutines', 'mode': mode}, {'race_report': p.stderr[:2500]},
+                            'direct:now-race: %d data race report(s) while evaluating $now/$millis concurrently; first at %s' % (nr, '; '.join(frames)[:300]))
+
 def run(tier, seed, replay=None):
     return simple_run('C19', tier, seed, replay,
         'instants: day boundaries (+/-1 ms, random time of day) on a stride over 1000-01-01..9999-12-31, all 24 hours on leap days, year ends and ISO-week edge years, negative and post-2262 instants; '
         'offsets -1400..+1400 in 15-minute steps and malformed ones; default picture and $toMillis inverse; every component letter x presentation/width modifier; 12-hour clock at every hour; '
-        'fixed-width pictures and their inverse; malformed pictures and texts; $now/$millis identities; calendar inputs computed with Python datetime (independent); distinct = distinct expression',
-        cases, timeout_ms=3000)
+        'fixed-width pictures and their inverse; malformed pictures and texts; $now/$millis identities (also on 8 goroutines under the race detector); calendar inputs computed with Python datetime (independent); distinct = distinct expression',
+        cases, timeout_ms=3000, post=now_concurrent)
